@@ -121,4 +121,12 @@ P("C15", "other", "def-use term analysis of the retain loop (one unrolled iterat
   "size and drops the pair); survivors are never relinked; the next cursor is the visited entry's LRU-side link. E3: current_size/len "
   "stay exact and the bound holds at the predicate call and at exit.",
   E3TB + " Not decided: exactly-once / order for every history needs the list-shape invariant (C07).", "DESIGN.md 3/C15")
+P("C06", "other", "linearity (typestate) dataflow over MIR for by-value entries + path rules for sinks, copy-out protocol and teardown",
+  "Entry has no drop glue, so the compiler neither drops nor forbids forgetting its key/value. Decided: every by-value Entry obtained "
+  "from a table/iterator/copy-out is moved into a sink on every normal path (may-hold dataflow with discriminant sensitivity); the "
+  "three sinks consume the key slot and the value slot exactly once per path; the bitwise copy-out primitive is used only by owning "
+  "iterators whose Drop exhausts then clear_no_drop's, or by the relocation, which empties the source table without dropping on every "
+  "path; clear_no_drop only after such a copy-out; cache Drop / clear drain the table through a sink, seal freed once afterwards; "
+  "Entry::clone uses Clone::clone on the source's slots.",
+  TB + " Not decided: unwind paths (leaks allowed), K/V Drop impls.", "DESIGN.md 3/C06")
 NOT_CLAIMED = {}
